@@ -560,6 +560,7 @@ func runHistory(o *out, id int, c hcase) {
 		}
 	}
 	nadd := 0
+	nbadmeta := 0
 	for _, h := range c.ops {
 		switch h.op {
 		case 'A':
@@ -616,8 +617,14 @@ func runHistory(o *out, id int, c hcase) {
 				o.printf("F => ok\n")
 			}
 		case 'N':
-			// metadata that cannot be read as a document (the library refuses string maps)
-			if err := coll.SetMetadata(map[string]string{"not": "a document"}); err != nil {
+			// metadata that cannot be read as a document (the library refuses string maps) or, every other time and for the
+			// compressing kinds, a birch document that cannot be encoded: refused, what was set before stays
+			var bad interface{} = map[string]string{"not": "a document"}
+			nbadmeta++
+			if nbadmeta%2 == 0 && isCompressingKind(c.kind) && c.wrapper != "wcoll" {
+				bad = birchBadDoc()
+			}
+			if err := coll.SetMetadata(bad); err != nil {
 				o.printf("N => err\n")
 			} else {
 				o.printf("N => ok\n")
